@@ -480,6 +480,12 @@ example : (runWith (remoteStep (tau true) demoInterp) builtins demoOps).map (fun
 example : (runWith (remoteStep (tau true) demoInterp) builtins [.call "und1" [.undef]]).map
     (fun p => p.2.map intOf) = some [some 1] := by decide
 
+/-! projections with a fixed argument that is not leading keep their positions through a remote call -/
+example : (runWith (remoteStep (tau true) demoInterp) builtins
+      [.call "dec" [.int 5], .proxy "ends" 2 [.int 1, .int 3], .call "nend" [.int 4], .call "suf" [.str "abc"],
+       .sym "dec"]).map (fun p => p.2.map showVal)
+    = some ["i4", "L3,i1,i2,i3", "L3,i4,i2,i9", "s6162633e", "P1,y646563"] := by decide +kernel
+
 /-! ### the pinned tree violates the property: witness -/
 
 /-- an interpreter in which `1%0` evaluates to `:undefined` -/
